@@ -167,7 +167,7 @@ def check(ctx):
             ok = any(isinstance(s, ast.Raise) and "FormatError" in unparse(s) for s in n.body)
     ctx.ob("R3", f"{CO}:_Formatter._iter_tokens", "tokenizer errors are converted into FormatError", ok, key="iter_tokens|format-error")
     cl = ctx.repo.module(CL)
-    mn = cl.func("main")
+    mn = flat(ctx, cl.func("main"), 2, skip=("_process_one", "format_source", "build_parser"))
     # the writer, by role: what `main` calls per file and what - seen through its helpers - opens a file for writing.  All of
     # R3 is decided on that helper-transparent view: splitting the per-file routine (stdin part / file part / write-back
     # helper) moves statements, not paths
@@ -179,6 +179,9 @@ def check(ctx):
             view = flat(ctx, funcs[nm], 3)
             if _write_opens(view):
                 entries.append((nm, funcs[nm], view))
+    # (a function that only hands on to another writer - the per-file loop split off `main` - is not the writer itself)
+    names_ = [e[0] for e in entries]
+    entries = [e for e in entries if not any(call_name(c) in names_ and call_name(c) != e[0] for c in calls_in(e[1]))] or entries
     _positional_pairing(ctx, mn)
     if not entries:
         raise AnchorMissing(f"{CL}: `main` calls no function of the module that (itself or through its helpers) opens a file for writing: no write-mode open")
@@ -191,7 +194,7 @@ def check(ctx):
             ctx.note(f"R3 write-back analysis of {ename} not completed next to reported violations: {e_}")
     from .c19 import _enclosing_try_with_handler
 
-    calls = [c for c in calls_in(mn) if call_name(c) in [e[0] for e in entries]]
+    calls = [c for c in calls_in(mn) if call_name(c) in [e[0] for e in entries] and not getattr(stmt_of(c), "_xv_call_marker", False)]
     ok = bool(calls) and all(_enclosing_try_with_handler(c, {"FormatError"}, mn)[0] is not None for c in calls)
     ctx.ob("R3", f"{CL}:main", "a FormatError from one file is reported and counted, never propagated into a write", ok, key="main|format-error-handler")
     _spacing(ctx, co)
